@@ -158,6 +158,27 @@ def check(run):
         has_super = any(c.func.attr == mname and isinstance(c.func.value, ast.Call) and isinstance(c.func.value.func, ast.Name) and c.func.value.func.id == 'super' for c in calls)
         if has_check and has_super:
             checked.add(mname)
+    # ... or by what the method does (a guard installed by a decorator, a helper, a differently written comparison): on a builder
+    # filled to the limit the method must refuse one more bit, on an empty one it must accept it
+    probe_args = {'append': lambda: [K(1)], 'extend': lambda: [K('1')], 'frombytes': lambda: [K(b'\x00')]}
+    for mname, mk in probe_args.items():
+        if mname in checked or mname not in tvm.methods:
+            continue
+        try:
+            it = Interp(prog)
+            full = it.getattr(filled(it, 1023), 'bits')
+            try:
+                it.call(it.getattr(full, mname), mk(), {})
+                refused = False
+            except RaiseEx as e:
+                refused = 'verflow' in str(e)
+            it = Interp(prog)
+            empty = it.getattr(filled(it, 0), 'bits')
+            it.call(it.getattr(empty, mname), mk(), {})
+            if refused:
+                checked.add(mname)
+        except (RaiseEx, Fail):
+            pass
     growers = {'append', 'extend', 'frombytes', 'insert', 'encode', 'pack', 'fromfile', 'setall', '__iadd__', '__imul__', '__setitem__'}
     sites, offenders = 0, []
     bcls = prog.cls('Builder')
